@@ -273,6 +273,7 @@ def scripts_for(emu):
     S["check_pid_range"] = lambda w, pid: None
     S["set_debug"] = lambda w, *a: None
     S["getpagesize"] = lambda w, *a: 4096
+    S["net_if_addrs"] = lambda w, *a: list(emu.netif_raw)
     S["getpriority"] = lambda w, pid: 9
     S["setpriority"] = lambda w, pid, v: None
 
@@ -562,6 +563,7 @@ class Emu:
         self.alias = "psutil_c20_" + ident
         self.world = None
         self.in_terminal = False
+        self.netif_raw = []
         self.consts = {}
         self.pkg = None
         self.mod = None
